@@ -19,7 +19,10 @@ KNOWN_LOGIC = "logic-junk-under-operand"
 ISSUE = {1: "model rejects a function the compiler accepts", 2: "code bytes differ", 3: "constant pools differ",
          4: "parameter counts differ", 5: "model accepts a function the compiler rejects",
          10: "byte-level model VM result differs from quasigo.Call", 11: "instruction-level model VM result differs from quasigo.Call",
-         12: "Coq source semantics differs from the Go toolchain"}
+         12: "Coq source semantics differs from the Go toolchain",
+         6: "a slot of env.userFuncs does not hold the function that was compiled into it (the function table changed under already compiled code)",
+         7: "env.userFuncs has another length than the model's function table after the history",
+         8: "a name is bound to another function ID than in the model of the Env"}
 
 
 def xres(s):
@@ -68,6 +71,25 @@ def prog_term(p):
                                             "true" if p.get("compile_err") else "false", ";\n  ".join(calls))
 
 
+def dump_term(d):
+    return "(mkdump %s [%s] [%s] %d %d)" % (coq_zlist(d.get("code") or []), "; ".join(d.get("consts") or []),
+                                             "; ".join(d.get("iconsts") or []), d["nobj"], d["nint"])
+
+
+def call_term(cobs):
+    return "(mkcall %d %s %s %s %s %d)" % (cobs["f"], cobs["args_coq"], xres(cobs["res"]), xres(cobs.get("oracle")), cobs["trace"], cobs.get("vl0", 0))
+
+
+def hist_term(h):
+    units = []
+    for u in h["units"]:
+        units.append("(mkhunit [%s]\n   [%s] %s)" % (";\n    ".join(u.get("decls") or []), ";\n    ".join(dump_term(d) for d in (u.get("dumps") or [])),
+                                                   "true" if u.get("compile_err") else "false"))
+    return "(mkhcase [%s]\n  [%s]\n  [%s]\n  [%s])" % (";\n  ".join(units), ";\n  ".join(dump_term(d) for d in (h.get("table") or [])),
+                                                   "; ".join("(%d, %s)" % (n, ("(%d)" % i) if i < 0 else str(i)) for n, i in (h.get("names") or [])),
+                                                   ";\n  ".join(call_term(c) for c in (h.get("calls") or [])))
+
+
 def parse_pairs(s):
     return [(int(a), int(b)) for a, b in re.findall(r"\(\s*(-?\d+)\s*,\s*(-?\d+)\s*\)", s)]
 
@@ -79,7 +101,8 @@ def run(c):
               "one (program, function, argument tuple); non-trivial and distinct by (construct set of the program, result kind, "
               "panic/normal) and per program by its bytecode")
     c.trusted += [
-        "go2coq quasigo (reads opcodes.gen.go, isUncondJump, bindLabel, eval's call cases, native bodies and dsl declarations syntactically)",
+        "go2coq quasigo / quasigoenv (read opcodes.gen.go, isUncondJump, bindLabel, eval's call cases, native bodies and dsl declarations, "
+        "the bodies of Env.addFunc/RemoveFunc and the shape of the other Env accessors and of irLoader.compileFilterFuncs syntactically)",
         "harness/cmd/c04 (generator, serialiser of go/ast + go/types facts into Coq terms, native call tracer) and the quasigo verif hooks",
         "the Go toolchain (go build) as the oracle for the source semantics; Go's strings/strconv/fmt as oracles for the natives (Section variables of the theorems, observed call tables in the correspondence)",
         "harness/cmd/c04dsl (engine-level differential for the dsl/types natives) and go/types",
@@ -91,15 +114,21 @@ def run(c):
     c.require_theories("Base/*.v", "Quasigo/*.v")
 
     # ---- P: regenerate tables, re-prove obligations over them
+    c.go2coq_sources = ["quasigo.go", "quasigoenv.go"]
     gen_ok = False
     if c.go2coq("quasigo", "Gen_Quasigo.v"):
         gen_ok = c.coq_compile(["Gen_Quasigo.v"])
         if gen_ok:
-            tm = ["Inst_Quasigo.v"]
-            if os.path.exists(os.path.join(c.verif, "coq", "tmpl", "C04", "C04.v")):
-                tm.append("C04.v")
+            tm = ["Inst_Quasigo.v", "C04.v"]
             c.install_tmpl(*["C04/" + t for t in tm])
             gen_ok = c.coq_compile(tm, timeout=900)
+            # obligations that do not feed the correspondence (a break here must not switch K off)
+            c.install_tmpl("C04/Inst_DslNatives.v")
+            c.coq_compile(["Inst_DslNatives.v"], timeout=300)
+    # the environment: addFunc / RemoveFunc bodies, accessors, the loader's protocol
+    if c.go2coq("quasigoenv", "Gen_QuasigoEnv.v") and c.coq_compile(["Gen_QuasigoEnv.v"]):
+        c.install_tmpl("C04/Inst_Env.v")
+        c.coq_compile(["Inst_Env.v"], timeout=300)
 
     hb = c.build_harness("c04")
     if hb is None:
@@ -107,9 +136,9 @@ def run(c):
 
     state = {"shard": 0}
 
-    def observe(n, seed, feat, tuples=8, corpus=False):
+    def observe(n, seed, feat, tuples=8, corpus=False, hist=0):
         tmp = os.path.join(c.work, "tmp-%d" % seed)
-        args = ["-seed", str(seed), "-n", str(n), "-tuples", str(tuples), "-feat", feat, "-tmp", tmp]
+        args = ["-seed", str(seed), "-n", str(n), "-hist", str(hist), "-tuples", str(tuples), "-feat", feat, "-tmp", tmp]
         if corpus:
             cdir = os.path.join(c.verif, "corpus", "C04")
             args += ["-corpus", cdir]
@@ -123,7 +152,7 @@ def run(c):
                 o = json.loads(line)
             except ValueError:
                 continue
-            if o.get("k") == "prog":
+            if o.get("k") in ("prog", "hist"):
                 progs.append(o)
             elif o.get("k") == "summary":
                 summ = o
@@ -160,7 +189,7 @@ def run(c):
         # ---- K and Sem: evaluate the model inside Coq
         pre = ["From Coq Require Import List ZArith Bool String.",
                "From RG.Base Require Import Outcome GoInt GoSlice.",
-               "From RG.Quasigo Require Import Source Bytecode Compile VM Sem Guards Harness.",
+               "From RG.Quasigo Require Import Source Bytecode Compile VM Sem Guards Harness Env HarnessEnv.",
                "From RGW Require Import Gen_Quasigo Inst_Quasigo." if gen_ok else "",
                "Import ListNotations. Local Open Scope Z_scope. Local Open Scope string_scope.",
                "Definition native_names : list string := [%s]." % "; ".join(coq_string(n) for n in names),
@@ -177,8 +206,12 @@ def run(c):
                     continue
                 src = list(pre)
                 for p in sh:
-                    src.append("Definition P%d : pcase := %s." % (p["i"], prog_term(p)))
-                src.append("Definition RES := Eval vm_compute in [%s]." % "; ".join("(%d, check_prog cfg fuel P%d)" % (p["i"], p["i"]) for p in sh))
+                    if p["k"] == "hist":
+                        src.append("Definition P%d : hcase := %s." % (p["i"], hist_term(p)))
+                    else:
+                        src.append("Definition P%d : pcase := %s." % (p["i"], prog_term(p)))
+                src.append("Definition RES := Eval vm_compute in [%s]." % "; ".join(
+                    "(%d, %s cfg fuel P%d)" % (p["i"], "check_hist" if p["k"] == "hist" else "check_prog", p["i"]) for p in sh))
                 src.append("Print RES.")
                 state["shard"] += 1
                 jobs.append(("Cases_%s_%d.v" % (tag, state["shard"]), "\n".join(src)))
@@ -209,14 +242,17 @@ def run(c):
             p = byidx[i]
             n_model_calls += len(p.get("calls") or [])
             for (fi, code) in fun_issues:
-                c.fail("corr", "bytecode: " + ISSUE.get(code, str(code)), input={"src": p["src"], "function": fi},
+                label = fi
+                if p["k"] == "hist":
+                    label = ("name #%d" % fi) if code == 8 else (p["slots"][fi] if 0 <= fi < len(p.get("slots") or []) else "slot %d" % fi)
+                c.fail("corr", ("bytecode: " if code < 6 else "Env: ") + ISSUE.get(code, str(code)), input={"src": p["src"], "function": label},
                        observed=(p.get("dumps") or [{}] * (fi + 1))[fi].get("code") if fi < len(p.get("dumps") or []) else p.get("compile_err"))
             per_call = {}
             for (j, code) in call_issues:
                 per_call.setdefault(j, []).append(code)
             for j, codes in per_call.items():
                 cobs = p["calls"][j]
-                inp = {"src": p["src"], "function": "qf%d" % cobs["f"], "args": cobs["args_go"]}
+                inp = {"src": p["src"], "function": cobs.get("where") or "qf%d" % cobs["f"], "args": cobs["args_go"]}
                 for code in codes:
                     if code >= 20:
                         inconclusive += 1
@@ -231,7 +267,7 @@ def run(c):
         # ---- oracle failures, attributed to the known finding only under its guard and when the faithful model agrees
         for (i, j), cobs in sorted(oracle_bad.items()):
             p = byidx[i]
-            inp = {"src": p["src"], "function": "qf%d" % cobs["f"], "args": cobs["args_go"]}
+            inp = {"src": p["src"], "function": cobs.get("where") or "qf%d" % cobs["f"], "args": cobs["args_go"]}
             finding = None
             if i in results:
                 _, call_issues, roots = results[i]
@@ -247,7 +283,15 @@ def run(c):
         c.coverage["oracle_vs_impl_calls"] = c.coverage.get("oracle_vs_impl_calls", 0) + sum(1 for p in progs for x in (p.get("calls") or []) if x.get("oracle"))
         c.coverage["inconclusive_model_runs"] = c.coverage.get("inconclusive_model_runs", 0) + inconclusive
         c.coverage["compile_errors"] = c.coverage.get("compile_errors", 0) + sum(1 for p in progs if p.get("compile_err"))
-        for p in progs[:2]:
+        hs = [p for p in progs if p["k"] == "hist"]
+        c.coverage["histories"] = c.coverage.get("histories", 0) + len(hs)
+        c.coverage["history_units"] = c.coverage.get("history_units", 0) + sum(len(h["units"]) for h in hs)
+        c.coverage["history_units_rejected"] = c.coverage.get("history_units_rejected", 0) + sum(1 for h in hs for u in h["units"] if u.get("compile_err"))
+        c.coverage["calls_of_earlier_units_after_later_loads"] = c.coverage.get("calls_of_earlier_units_after_later_loads", 0) + sum(
+            h["feat"].get("call-of-earlier-unit", 0) for h in hs)
+        for h in hs:
+            c.nontriv("hist:" + json.dumps([u["kind"] + ("!" if u.get("compile_err") else "") for u in h["units"]]))
+        for p in progs[:2] + hs[:1]:
             if p.get("calls"):
                 c.sample({"src": p["src"][:400], "call": p["calls"][0]["args_go"], "quasigo": p["calls"][0]["res"], "go": p["calls"][0].get("oracle")})
 
@@ -297,11 +341,11 @@ def run(c):
     dsl_differential(c.seed, 4 if not thorough else 24, "main")
 
     n = 120 if not thorough else 1500
-    progs, summ = observe(n, c.seed, "logic", corpus=True)
+    progs, summ = observe(n, c.seed, "logic", corpus=True, hist=40 if not thorough else 400)
     compare(progs, summ, "main")
 
     def search():
-        progs2, summ2 = observe(400, c.seed + 1000, "logic")
+        progs2, summ2 = observe(400, c.seed + 1000, "logic", hist=100)
         compare(progs2, summ2, "search")
 
     c.coverage["exhaustive"] = False
